@@ -23,6 +23,10 @@ ASSUMPTIONS = ["two transcriptions of the same spec (with / without the constrai
                "ingredient values at grid points are read with ocp.sample on control/integrator/integrator_roots grids"]
 
 
+def lead_coef():
+    return st.sampled_from([c for c in gen.COEFS if abs(c) != 1.0])
+
+
 def wrap_offsets(draw, e, N, prob=3):
     """Replace some symbol leaves (or t) by offset operands."""
     op = e[0]
@@ -62,7 +66,8 @@ def constraint(draw, sp, allow_roots=True):
         for _ in range(n):
             a = draw(st.sampled_from(dec))
             pa = draw(st.sampled_from(["at_t0", "at_tf"]))
-            e = ["*", E.C(draw(gen.coef())), [pa, ["+", a, draw(gen.free_expr([a] + sig[:3], depth=1))]]]
+            # separate placeholders and a leading coefficient != +-1: the decision operand can never cancel symbolically
+            e = ["+", ["*", E.C(draw(lead_coef())), [pa, a]], [pa, draw(gen.free_expr([a] + sig[:3], depth=1))]]
             if draw(st.booleans()):
                 pb = draw(st.sampled_from(["at_t0", "at_tf"]))
                 e = ["+", e, [pb, draw(gen.free_expr(sig, depth=2))]]
@@ -84,7 +89,7 @@ def constraint(draw, sp, allow_roots=True):
             if kind == "control":
                 rest = wrap_offsets(draw, rest, N)
             # the leading term stays unshifted: rockit recognises a path constraint by an unshifted signal operand
-            e = ["+", ["*", E.C(draw(gen.coef())), a], rest]
+            e = ["+", ["*", E.C(draw(lead_coef())), a], rest]
             lhs.append(e)
         c["lhs"] = lhs
         c["grid"] = {"control": draw(st.sampled_from([None, "control"])), "integrator": "integrator", "roots": "integrator_roots"}[kind]
